@@ -147,6 +147,8 @@ def run_case(case, ctx):
 		# generator input (calc_file_signature passes a generator)
 		got = _call(lambda: calc_signature(kspec, (s for s in seqs)), 'generator', case)
 		_compare(np, got, exp, k, 'generator', case)
+		got = _call(lambda: calc_signature(kspec, tuple(seqs)), 'tuple', case)
+		_compare(np, got, exp, k, 'tuple', case)
 		classes = R.analyse(seqs, k, pb)
 		if len(set(exp)) and any(True for _ in ()):
 			pass
